@@ -303,6 +303,151 @@ def _inline_module_constants(tree, count):
     R().visit(tree)
 
 
+def _store_counts(tree):
+    stores = {}
+    for x in ast.walk(tree):
+        if isinstance(x, ast.Name) and not isinstance(x.ctx, ast.Load):
+            stores[x.id] = stores.get(x.id, 0) + 1
+        elif isinstance(x, (ast.Global, ast.Nonlocal)):
+            for n in x.names:
+                stores[n] = stores.get(n, 0) + 2
+        elif isinstance(x, ast.arg):
+            stores[x.arg] = stores.get(x.arg, 0) + 2
+        elif isinstance(x, (ast.FunctionDef, ast.AsyncFunctionDef, ast.ClassDef)):
+            stores[x.name] = stores.get(x.name, 0) + 2
+        elif isinstance(x, (ast.Import, ast.ImportFrom)):
+            for a in x.names:
+                k = (a.asname or a.name).split(".")[0]
+                stores[k] = stores.get(k, 0) + 2
+        elif isinstance(x, ast.ExceptHandler) and x.name:
+            stores[x.name] = stores.get(x.name, 0) + 2
+        elif isinstance(x, ast.comprehension):
+            pass
+    return stores
+
+
+def _is_partial(tree, f):
+    """does the callee expression denote functools.partial in this module?"""
+    if isinstance(f, ast.Attribute) and f.attr == "partial" and isinstance(f.value, ast.Name) and f.value.id == "functools":
+        return any(isinstance(st, ast.Import) and any(a.name == "functools" and a.asname is None for a in st.names) for st in tree.body)
+    if isinstance(f, ast.Name) and f.id == "partial":
+        return any(isinstance(st, ast.ImportFrom) and st.module == "functools" and any(a.name == "partial" and a.asname is None for a in st.names) for st in tree.body)
+    return False
+
+
+def _inline_module_aliases(tree, count):
+    """K15: a private module-level name bound once to a module-level def / class (`_nary = _associative_binary_to_nary`)
+    is replaced by that name.  K16: a private module-level name bound once to `partial(f, <literal / reference arguments>)`
+    is written out where it is called: `_binary(x)` -> `f(x, n=2)` (keyword arguments of the partial only, or positional
+    ones in front - exactly what partial does)."""
+    defs = {st.name for st in tree.body if isinstance(st, (ast.FunctionDef, ast.ClassDef))}
+    # names imported once are as good: replacing one once-bound name by another is exact whatever they denote
+    defs |= {a.asname or a.name for st in tree.body if isinstance(st, ast.ImportFrom) for a in st.names if a.name != "*"}
+    stores = _store_counts(tree)
+    aliases, partials = {}, {}
+    seen_defs = set()  # bound above the alias (`_map = map` in front of `def map` means the builtin)
+    for st in tree.body:
+        if isinstance(st, (ast.FunctionDef, ast.ClassDef)):
+            seen_defs.add(st.name)
+        elif isinstance(st, ast.ImportFrom):
+            seen_defs |= {a.asname or a.name for a in st.names}
+        defs = seen_defs
+        if isinstance(st, ast.Assign) and len(st.targets) == 1 and isinstance(st.targets[0], ast.Name):
+            nm = st.targets[0].id
+            if not nm.startswith("_") or nm.startswith("__") or stores.get(nm, 0) != 1:
+                continue
+            v = st.value
+            if isinstance(v, ast.Name) and v.id in defs and stores.get(v.id, 0) == 2:
+                aliases[nm] = v
+            elif isinstance(v, ast.Call) and _is_partial(tree, v.func) and v.args and isinstance(v.args[0], ast.Name) and v.args[0].id in defs and stores.get(v.args[0].id, 0) == 2 and not any(isinstance(a, ast.Starred) for a in v.args) and all(k.arg is not None for k in v.keywords) and all(_is_literal(a) or _is_ref(a) for a in v.args[1:]) and all(_is_literal(k.value) or _is_ref(k.value) for k in v.keywords):
+                partials[nm] = v
+    if not aliases and not partials:
+        return
+
+    class R(ast.NodeTransformer):
+        def visit_Call(self, c):
+            self.generic_visit(c)
+            if isinstance(c.func, ast.Name) and isinstance(c.func.ctx, ast.Load) and c.func.id in partials:
+                pv = partials[c.func.id]
+                if not any(k.arg is None for k in c.keywords) and not ({k.arg for k in c.keywords} & {k.arg for k in pv.keywords}):
+                    count["K16"] = count.get("K16", 0) + 1
+                    return ast.copy_location(ast.Call(func=_copy(pv.args[0]), args=[_copy(a) for a in pv.args[1:]] + c.args, keywords=[_copy(k) for k in pv.keywords] + c.keywords), c)
+            return c
+
+        def visit_Name(self, n):
+            if isinstance(n.ctx, ast.Load) and n.id in aliases:
+                count["K15"] = count.get("K15", 0) + 1
+                return ast.copy_location(_copy(aliases[n.id]), n)
+            return n
+
+    # the bindings themselves stay (other modules may import the names)
+    keep = {id(st) for st in tree.body if isinstance(st, ast.Assign) and len(st.targets) == 1 and isinstance(st.targets[0], ast.Name) and (st.targets[0].id in aliases or st.targets[0].id in partials)}
+    for i, st in enumerate(tree.body):
+        if id(st) not in keep:
+            tree.body[i] = R().visit(st)
+
+
+def _record_classes(tree):
+    """typing.NamedTuple classes of the module: {name: [(field, default node or None), ...]}"""
+    out = {}
+    for st in tree.body:
+        if isinstance(st, ast.ClassDef) and len(st.bases) == 1 and ((isinstance(st.bases[0], ast.Name) and st.bases[0].id == "NamedTuple") or (isinstance(st.bases[0], ast.Attribute) and st.bases[0].attr == "NamedTuple")) and not st.keywords and not st.decorator_list:
+            fields = []
+            ok = True
+            for b in st.body:
+                if isinstance(b, ast.AnnAssign) and isinstance(b.target, ast.Name):
+                    fields.append((b.target.id, b.value))
+                elif isinstance(b, ast.Expr) and isinstance(b.value, ast.Constant):
+                    continue
+                elif isinstance(b, (ast.FunctionDef, ast.Pass)):
+                    continue
+                else:
+                    ok = False
+            if ok and fields:
+                out[st.name] = fields
+    return out
+
+
+def _record_fields(e):
+    """field -> value of a record constructor call `Rec(a, b, c=d)` with plain arguments, else None"""
+    if not (isinstance(e, ast.Call) and isinstance(e.func, ast.Name) and e.func.id in _CTX.get("records", {})):
+        return None
+    fields = _CTX["records"][e.func.id]
+    if any(isinstance(a, ast.Starred) for a in e.args) or any(k.arg is None for k in e.keywords) or len(e.args) > len(fields):
+        return None
+    vals = {}
+    for (fname, _), a in zip(fields, e.args):
+        vals[fname] = a
+    for k in e.keywords:
+        if k.arg in vals or k.arg not in [f for f, _ in fields]:
+            return None
+        vals[k.arg] = k.value
+    for fname, dflt in fields:
+        if fname not in vals:
+            if dflt is None:
+                return None
+            vals[fname] = dflt
+    if not all(_is_literal(v) or _is_ref(v) for v in vals.values()):
+        return None
+    return vals
+
+
+class _FoldRecords(ast.NodeTransformer):
+    """`Rec(a, b).field` -> the argument stored in that field"""
+
+    def __init__(self):
+        self.n = 0
+
+    def visit_Attribute(self, node):
+        self.generic_visit(node)
+        if isinstance(node.ctx, ast.Load):
+            vals = _record_fields(node.value)
+            if vals is not None and node.attr in vals:
+                self.n += 1
+                return ast.copy_location(_copy(vals[node.attr]), node)
+        return node
+
+
 def _loops_to_comprehensions(fn, count):
     loads, other, stores = {}, set(), {}
 
@@ -437,7 +582,7 @@ def _is_ref(e):
 
 def _literal_table(e):
     """rows of a literal table expression: [(ast literal per loop target component ...)] or None"""
-    if isinstance(e, ast.Dict) and e.keys and all(k is not None and _is_literal(k) for k in e.keys) and all(_is_literal(v) or _is_ref(v) for v in e.values):
+    if isinstance(e, ast.Dict) and e.keys and all(k is not None and _is_literal(k) for k in e.keys) and all(_is_literal(v) or _is_ref(v) or _record_fields(v) is not None for v in e.values):
         return [ast.Tuple(elts=[k, v], ctx=ast.Load()) for k, v in zip(e.keys, e.values)]
     if isinstance(e, ast.Call) and isinstance(e.func, ast.Attribute) and e.func.attr == "split" and not e.args and not e.keywords and isinstance(e.func.value, ast.Constant) and isinstance(e.func.value.value, str) and e.func.value.value.split():
         return [ast.copy_location(ast.Constant(value=w), e) for w in e.func.value.value.split()]  # "a b c".split()
@@ -462,8 +607,8 @@ def _is_row(e):
     if _is_literal(e):
         return True
     if isinstance(e, (ast.Tuple, ast.List)) and e.elts:
-        return all(_is_literal(x) or _is_ref(x) or _is_row(x) or isinstance(x, ast.Lambda) or _is_text(x) for x in e.elts)
-    return False
+        return all(_is_literal(x) or _is_ref(x) or _is_row(x) or isinstance(x, ast.Lambda) or _is_text(x) or _record_fields(x) is not None for x in e.elts)
+    return _record_fields(e) is not None
 
 
 def _is_text(e):
@@ -573,6 +718,9 @@ def _simplify_iteration(stmts, temps):
     (`op = np.add; op = wrap(op); self.add = f(op)` -> `self.add = f(wrap(np.add))`); returns the statements unchanged
     when that is not possible exactly"""
     flat = []
+    if _CTX.get("records"):
+        fr = _FoldRecords()
+        stmts = [fr.visit(st) for st in stmts]
 
     def fold(ss):
         for st in ss:
@@ -738,6 +886,8 @@ def _const_truth(e):
     if isinstance(e, ast.UnaryOp) and isinstance(e.op, ast.Not):
         v = _const_truth(e.operand)
         return None if v is None else not v
+    if isinstance(e, ast.Compare) and len(e.ops) == 1 and isinstance(e.ops[0], (ast.Is, ast.IsNot)) and isinstance(e.comparators[0], ast.Constant) and e.comparators[0].value is None and isinstance(e.left, ast.Name) and e.left.id in _CTX.get("nonnull", ()):
+        return isinstance(e.ops[0], ast.IsNot)  # a def / class / partial of this module is not None
     if isinstance(e, ast.Compare) and len(e.ops) == 1 and isinstance(e.left, ast.Constant) and isinstance(e.comparators[0], ast.Constant):
         a, b, op = e.left.value, e.comparators[0].value, e.ops[0]
         if isinstance(op, (ast.Is, ast.IsNot)) and (a is None or b is None or isinstance(a, bool) or isinstance(b, bool)):
@@ -1065,12 +1215,21 @@ def _shadows_builtin(tree, name):
 
 def literal_tables(tree):
     """module-level literal tables of a parsed module (for the cross-module table of the loader)"""
+    _CTX["records"] = _record_classes(tree)
     return _once_bound_literals(tree.body, tree)
 
 
-def canonicalise(tree, global_tables=None):
+def module_defs(tree):
+    """names a module binds exactly once, to a def or a class (for `X is not None` on an imported function)"""
+    st_ = _store_counts(tree)
+    return {x.name for x in tree.body if isinstance(x, (ast.FunctionDef, ast.AsyncFunctionDef, ast.ClassDef)) and st_.get(x.name, 0) == 2}
+
+
+def canonicalise(tree, global_tables=None, global_defs=None, module_name=None, is_package=False):
     """rewrite `tree` in place; returns {rewrite: number of applications}"""
+    _CTX["name"] = (module_name, is_package)
     _CTX["global"] = global_tables or {}
+    _CTX["global_defs"] = global_defs or {}
     _CTX["module"] = {}
     ex = _Exprs()
     ex.visit(tree)
@@ -1078,6 +1237,29 @@ def canonicalise(tree, global_tables=None):
     count["K1"] = 0
     _split_tuple_assignments(tree, count)
     _inline_module_constants(tree, count)
+    _inline_module_aliases(tree, count)
+    _CTX["records"] = _record_classes(tree)
+    st_ = _store_counts(tree)
+    _CTX["nonnull"] = {x.name for x in tree.body if isinstance(x, (ast.FunctionDef, ast.ClassDef)) and st_.get(x.name, 0) == 2}
+    # imported from a module of the package in which the name is a def / class
+    for x in tree.body:
+        if isinstance(x, ast.ImportFrom) and x.module:
+            last = x.module.split(".")[-1]
+            srcs = [d for mn, d in _CTX["global_defs"].items() if mn.split(".")[-1] == last]
+            mname, ispkg = _CTX.get("name", (None, False))
+            if mname is not None:
+                # the imported module by its full name (relative imports resolved against this module's package)
+                if x.level:
+                    base = mname.split(".")
+                    base = base[: len(base) - (x.level - (1 if ispkg else 0))] if (x.level - (1 if ispkg else 0)) > 0 else base
+                    full = ".".join(base + [x.module])
+                else:
+                    full = x.module
+                srcs = [_CTX["global_defs"][full]] if full in _CTX["global_defs"] else []
+            for a in x.names:
+                if srcs and all(a.name in d for d in srcs) and st_.get(a.asname or a.name, 0) == 2:
+                    _CTX["nonnull"].add(a.asname or a.name)
+    _CTX["nonnull"] |= {x.targets[0].id for x in tree.body if isinstance(x, ast.Assign) and len(x.targets) == 1 and isinstance(x.targets[0], ast.Name) and st_.get(x.targets[0].id, 0) == 1 and isinstance(x.value, ast.Call) and _is_partial(tree, x.value.func)}
     # K8: table loops (module constants are visible in every function of the module)
     module_tables = _once_bound_literals(tree.body, tree)
     _CTX["module"] = module_tables
@@ -1085,6 +1267,7 @@ def canonicalise(tree, global_tables=None):
         _unroll_table_loops(fn, module_tables, count)
     if count.get("K8"):
         _Beta(count).visit(tree)
+        _inline_module_aliases(tree, count)  # calls through partial aliases that the unrolling exposed
     # K13: keyword dictionaries written out
     for fn in [n for n in ast.walk(tree) if isinstance(n, (ast.FunctionDef, ast.AsyncFunctionDef))]:
         _spread_keyword_dicts(fn, count)
